@@ -1,6 +1,6 @@
 (* Property C08 — only awaited events are accepted, each once; rejected events change nothing.
    Statements proved in RefC08.v (reference semantics, API layer), nothing else. *)
-From PFDL Require Import RefSem RunCase Monitors RefC08 NetModel NetRun NetC08.
+From PFDL Require Import RefSem RunCase Monitors RefC08 NetModel NetRun NetC08 NetC08Erase.
 
 (* an event that is not an awaited completion is reported False and changes nothing at all
    (the state after the call is the state before it, up to the discarded log of the previous
@@ -89,3 +89,33 @@ Theorem C08_net_unawaited_before_forwarding :
     end.
 Proof. exact net_accept_unawaits_first. Qed.
 Print Assumptions C08_net_unawaited_before_forwarding.
+
+(* erasing a rejected call (junk, a completion that is not awaited, a repeated start) from ANY
+   history of the faithful model: all later records are the same; the record of the rejected
+   call shows the state before it with an empty log *)
+Theorem C08_net_erase_rejected :
+  forall tasks env f (s : NS) c cs,
+    net_rejected s c = true ->
+    net_run_script tasks env (S f) s (c :: cs) =
+    rbind (net_run_script tasks env (S f) s cs)
+          (fun t => Ok (net_observe (rejected_ret c) (cleared s) :: t)).
+Proof. exact net_erase_rejected. Qed.
+Print Assumptions C08_net_erase_rejected.
+
+Theorem C08_net_erase_rejected_burst :
+  forall tasks env f (s : NS) bs cs,
+    forallb (net_rejected s) bs = true ->
+    net_run_script tasks env (S f) s (bs ++ cs) =
+    rbind (net_run_script tasks env (S f) s cs)
+          (fun t => Ok (map (fun c => net_observe (rejected_ret c) (cleared s)) bs ++ t)).
+Proof. exact net_erase_rejected_burst. Qed.
+Print Assumptions C08_net_erase_rejected_burst.
+
+Theorem C08_net_rejected_record :
+  forall (s : NS) c,
+    cr_log (net_observe (rejected_ret c) (cleared s)) = []
+    /\ cr_running (net_observe (rejected_ret c) (cleared s)) = ns_running s
+    /\ cr_awaited (net_observe (rejected_ret c) (cleared s)) = cr_awaited (net_observe false s)
+    /\ cr_final (net_observe (rejected_ret c) (cleared s)) = cr_final (net_observe false s).
+Proof. exact net_rejected_record. Qed.
+Print Assumptions C08_net_rejected_record.
